@@ -9,6 +9,7 @@ import FordModel.Lemmas.Parse
 import FordModel.Generated.C01
 import FordModel.TypeSpec
 import FordModel.Lemmas.TypeSpec
+import FordModel.Lemmas.TypeSpecChar
 namespace Ford.C01
 open Ford.Parse
 
@@ -174,5 +175,107 @@ example :
     (parseType "ReAL  ( 8 ) :: x".toList).toOption = some { vartype := "real".toList, rest := ":: x".toList, kind := some ['8'] } ∧
     (parseType "ReAL  ( KiNd = 8 ) :: x".toList).toOption
       = some { vartype := "real".toList, rest := ":: x".toList, kind := some ['8'] } := by decide
+
+open Ford.TypeSpec in
+/-- **Length spellings of `character` agree** (`character(n)` ≡ `character(len=n)` ≡ `character*(n)`, and
+    `character*n` for a number).  `n` is `*`, `:`, a number or a name; keywords in any letter case; runs of
+    blanks and tabs wherever Fortran allows them; any continuation `get_parens` stops at.  All spellings
+    decompose into type `character`, length `n`, no kind, and the same remainder; none fails. -/
+theorem character_length_spellings_agree (t w1 w2 w3 wa wb ws L n tail : Str)
+    (ht : lower t = kwChar) (hL : lower L = (chars! "len")) (hn : LenVal n)
+    (h1 : isPad w1 = true) (h2 : isPad w2 = true) (h3 : isPad w3 = true)
+    (ha : isPad wa = true) (hb : isPad wb = true) (hws : isPad ws = true)
+    (htail : EndsScan tail) (htn : tail.all (fun c => c != '\n') = true) :
+    let expected : Except TErr Parsed := .ok { vartype := kwChar, rest := strip tail, strlen := some n }
+    parseType (t ++ (w1 ++ (('(' :: (w2 ++ n ++ w3) ++ [')']) ++ tail))) = expected ∧
+    parseType (t ++ (w1 ++ (('(' :: (w2 ++ (L ++ wa ++ '=' :: (wb ++ n)) ++ w3) ++ [')']) ++ tail))) = expected ∧
+    parseType (t ++ (w1 ++ (('*' :: (ws ++ '(' :: (w2 ++ n ++ w3) ++ [')'])) ++ tail))) = expected ∧
+    ((∀ c ∈ n, isDigit c = true) → parseType (t ++ (w1 ++ (('*' :: (ws ++ n)) ++ tail))) = expected) := by
+  have hnk := lenVal_kindCh hn
+  have hne := lenVal_ne hn
+  refine ⟨?_, ?_, ?_, ?_⟩
+  · have := parse_char_one t w1 w2 n w3 tail (some n) none ht h1 h2 h3
+      (fun c hc => kindCh_argCh (hnk c hc)) hne htail htn (charArgs_bare hn)
+    simpa using this
+  · have hLa := kw_alpha L _ hL lenKw_alpha
+    have hX : ∀ c ∈ w2 ++ (L ++ wa ++ '=' :: (wb ++ n)) ++ w3, isParen c = false := by
+      intro c hc
+      simp only [List.mem_append, List.mem_cons] at hc
+      rcases hc with (hc | (hc | hc) | rfl | hc | hc) | hc
+      · exact blank_paren (isPad_blank h2) c hc
+      · exact alpha_paren (hLa c hc)
+      · exact blank_paren (isPad_blank ha) c hc
+      · decide
+      · exact blank_paren (isPad_blank hb) c hc
+      · exact kindCh_paren (hnk c hc)
+      · exact blank_paren (isPad_blank h3) c hc
+    have hLn := allNotNl L (fun c hc => nospace_ne_nl (alpha_space (hLa c hc)))
+    have hNn := allNotNl n (fun c hc => nospace_ne_nl (kindCh_space (hnk c hc)))
+    have hLs : ∀ c ∈ L, isSpace c = false := fun c hc => alpha_space (hLa c hc)
+    have hNs : ∀ c ∈ n, isSpace c = false := fun c hc => kindCh_space (hnk c hc)
+    have hrm : removeWs (w2 ++ (L ++ wa ++ '=' :: (wb ++ n)) ++ w3) = L ++ '=' :: n := by
+      rw [show ('=' :: (wb ++ n)) = ['='] ++ (wb ++ n) by rfl]
+      simp only [removeWs_append, removeWs_blank _ (isPad_blank h2), removeWs_blank _ (isPad_blank h3),
+        removeWs_blank _ (isPad_blank ha), removeWs_blank _ (isPad_blank hb),
+        removeWs_nospace L hLs, removeWs_nospace n hNs, List.nil_append, List.append_nil]
+      rfl
+    have := parse_char_paren t w1 (w2 ++ (L ++ wa ++ '=' :: (wb ++ n)) ++ w3) tail [L ++ '=' :: n] (some n) none
+      ht h1 hX (by simp [List.all_append, isPad_nl h2, isPad_nl h3, isPad_nl ha, isPad_nl hb, hLn, hNn])
+      (by cases L <;> simp_all [lower])
+      htail htn
+      (by rw [hrm]; exact splitComma_one _ (fun c hc => argCh_comma (kwArg_argCh L n _ hL lenKw_alpha hnk c hc)))
+      (by simp) (charArgs_len L n hL hn)
+    simpa using this
+  · exact parse_char_star_paren t w1 ws w2 n w3 tail ht h1 hws h2 h3 hnk hne htail htn
+  · intro hd
+    exact parse_char_star t w1 ws n tail ht h1 hws hd hne htail htn
+
+open Ford.TypeSpec in
+/-- **Length-and-kind spellings of `character` agree**: `(len=n, kind=k)` ≡ `(kind=k, len=n)` ≡
+    `(n, kind=k)` ≡ `(n, k)` for a length value `n` and a flat kind `k`, keywords in any letter case, blanks
+    around the parentheses and the comma: type `character`, length `n`, kind `k`, same remainder. -/
+theorem character_length_kind_spellings_agree (t w1 w2 w3 w4 w5 L K n k tail : Str)
+    (ht : lower t = kwChar) (hL : lower L = (chars! "len")) (hK : lower K = (chars! "kind"))
+    (hn : LenVal n) (hk : ∀ c ∈ k, kindCh c = true) (hkne : k ≠ [])
+    (h1 : isPad w1 = true) (h2 : isPad w2 = true) (h3 : isPad w3 = true) (h4 : isPad w4 = true)
+    (h5 : isPad w5 = true) (htail : EndsScan tail) (htn : tail.all (fun c => c != '\n') = true) :
+    let expected : Except TErr Parsed :=
+      .ok { vartype := kwChar, rest := strip tail, kind := some k, strlen := some n }
+    parseType (t ++ (w1 ++ (('(' :: (w2 ++ (L ++ '=' :: n) ++ w3 ++ ',' :: (w4 ++ (K ++ '=' :: k) ++ w5)) ++ [')']) ++ tail))) = expected ∧
+    parseType (t ++ (w1 ++ (('(' :: (w2 ++ (K ++ '=' :: k) ++ w3 ++ ',' :: (w4 ++ (L ++ '=' :: n) ++ w5)) ++ [')']) ++ tail))) = expected ∧
+    parseType (t ++ (w1 ++ (('(' :: (w2 ++ n ++ w3 ++ ',' :: (w4 ++ (K ++ '=' :: k) ++ w5)) ++ [')']) ++ tail))) = expected ∧
+    parseType (t ++ (w1 ++ (('(' :: (w2 ++ n ++ w3 ++ ',' :: (w4 ++ k ++ w5)) ++ [')']) ++ tail))) = expected := by
+  have hnk := lenVal_kindCh hn
+  have hne := lenVal_ne hn
+  have hAl := kwArg_argCh L n _ hL lenKw_alpha hnk
+  have hAk := kwArg_argCh K k _ hK kindKw_alpha hk
+  have hAn : ∀ c ∈ n, argCh c = true := fun c hc => kindCh_argCh (hnk c hc)
+  have hAkk : ∀ c ∈ k, argCh c = true := fun c hc => kindCh_argCh (hk c hc)
+  refine ⟨?_, ?_, ?_, ?_⟩
+  · have := parse_char_two t w1 w2 (L ++ '=' :: n) w3 w4 (K ++ '=' :: k) w5 tail (some n) (some k) ht h1 h2 h3 h4 h5
+      hAl hAk (by simp) htail htn (charArgs_len_kind L K n k hL hK hn hk hkne)
+    simpa using this
+  · have := parse_char_two t w1 w2 (K ++ '=' :: k) w3 w4 (L ++ '=' :: n) w5 tail (some n) (some k) ht h1 h2 h3 h4 h5
+      hAk hAl (by simp) htail htn (charArgs_kind_len L K n k hL hK hn hk hkne)
+    simpa using this
+  · have := parse_char_two t w1 w2 n w3 w4 (K ++ '=' :: k) w5 tail (some n) (some k) ht h1 h2 h3 h4 h5
+      hAn hAk hne htail htn (charArgs_bare_kind K n k hK hn hk hkne)
+    simpa using this
+  · have := parse_char_two t w1 w2 n w3 w4 k w5 tail (some n) (some k) ht h1 h2 h3 h4 h5
+      hAn hAkk hne htail htn (charArgs_bare_bare n k hn hk)
+    simpa using this
+
+open Ford.TypeSpec in
+/-- non-vacuity: concrete spellings that meet the hypotheses -/
+example :
+    (parseType "CHARACTER ( LEN = 10 ) :: s".toList).toOption
+      = some { vartype := kwChar, rest := ":: s".toList, strlen := some "10".toList } ∧
+    (parseType "character * (10) :: s".toList).toOption
+      = some { vartype := kwChar, rest := ":: s".toList, strlen := some "10".toList } ∧
+    (parseType "character(kind=ck, len=*), intent(in) :: s".toList).toOption
+      = some { vartype := kwChar, rest := ", intent(in) :: s".toList, kind := some "ck".toList, strlen := some ['*'] } ∧
+    (parseType "character(*, ck), intent(in) :: s".toList).toOption
+      = some { vartype := kwChar, rest := ", intent(in) :: s".toList, kind := some "ck".toList, strlen := some ['*'] } := by
+  decide
 
 end Ford.C01
